@@ -29,6 +29,7 @@ struct Conn {
   bool server_closed = false;
   std::deque<std::string> send_script;  // results of future send() calls
   int recv_eintr = 0;                   // this many of the next recv() calls are interrupted (EINTR)
+  bool spurious = false;                // the next poll reports the connection readable although nothing has arrived
   long tx_bytes = 0;
   bool accepted = false;
   bool rx_cr = false;              // last delivered byte was CR (telnet newline may span two recv calls)
@@ -417,6 +418,9 @@ static void do_step(const Step &st) {
     int cid = atoi(st.a[0].c_str());
     if (conns.count(cid))
       for (auto &r : split(st.a[1], ',')) if (!r.empty()) conns[cid].send_script.push_back(r);
+  } else if (op == "spurious") {    // spurious <conn>: one spurious read readiness
+    int cid = atoi(st.a[0].c_str());
+    if (conns.count(cid)) conns[cid].spurious = true;
   } else if (op == "acceptfail") {  // acceptfail <k> [eintr]: the next k accept() calls fail with EMFILE (or EINTR)
     accept_fail = atoi(st.a[0].c_str()); accept_fail_errno = (st.a.size() > 1 && st.a[1] == "eintr") ? EINTR : EMFILE;
   } else if (op == "recvintr") {    // recvintr <conn> <k>: the next k recv() calls on the connection return EINTR
@@ -513,6 +517,7 @@ extern "C" int __wrap_epoll_wait(int ep, struct epoll_event *out, int maxev, int
       Conn &c = conns[f.conn];
       if (c.rst) got |= EPOLLERR | EPOLLHUP;
       if ((want & EPOLLIN) && (!c.in.empty() || c.eof)) got |= EPOLLIN;
+      if ((want & EPOLLIN) && c.spurious) { got |= EPOLLIN; c.spurious = false; S.stats["spurious_readiness"]++; }     // reported readable, nothing to read (legal for epoll)
       if (want & EPOLLOUT) {
         if (!c.send_script.empty() && c.send_script.front() == "w") { c.send_script.pop_front(); S.stats["window_closed_cycles"]++; }
         else got |= EPOLLOUT;
